@@ -45,7 +45,8 @@ def gen(rnd, complete=None):
     pool = [rnd.random() for _ in range(3)]
     states = [rnd.choice(pool) if rnd.random() < 0.4 else rnd.choice([rnd.random(), rnd.randrange(1, 1 << 20) / (1 << 20), 0.5, 1e-9, 1 - 1e-9])
               for _ in nodes]
-    return dict(nodes=nodes, edges=[list(e) for e in edges], complete=comp, period=period, b=b, coupling=coupling, states=states,
+    prior = rnd.choice([None, None, None, 'setup_exc', 'interrupt', 'normal'])
+    return dict(prior=prior, prior_states=[rnd.random() for _ in nodes], nodes=nodes, edges=[list(e) for e in edges], complete=comp, period=period, b=b, coupling=coupling, states=states,
                 dyn=rnd.choice(['sto', 'syn']), maxT=rnd.choice([2.0, 3.0, 5.0]) * max(1.0, period))
 
 
@@ -114,6 +115,7 @@ def run(spec):
 
         def eventFired(self, t, pr, name, e):
             info['events'] += 1
+            if st.get('interrupt_at') == info['events']: raise KeyboardInterrupt()
             st['taps'].append((t, e, name))
             if info['events'] > 600: raise CaseTimeout()
             exp.append(f"EV own={bits(t)} h={bits(t)} clock={bits(self.currentSimulationTime())} tap={bits(t)} id={st.get('lastid', 0)} n={e} | " + state_line(self))
@@ -133,6 +135,22 @@ def run(spec):
         return orig_fired2(t, n)
     p.fired = fired_id
     params = {PulseCoupledOscillator.PERIOD: period, PulseCoupledOscillator.B: spec['b'], PulseCoupledOscillator.COUPLING: spec['coupling']}
+    if spec.get('prior'):
+        # an earlier run on the same experiment object that ended abnormally (or normally); then forget what was recorded
+        sr.vals = list(spec['prior_states']) + sr.vals
+        orig_init = p.initialisePhases
+        if spec['prior'] == 'setup_exc':
+            def bad():
+                orig_init(); raise RuntimeError('injected in set-up')
+            p.initialisePhases = bad
+        if spec['prior'] == 'interrupt': st['interrupt_at'] = 2
+        try:
+            d.set(params).run(fatal=True)
+        except (RuntimeError, KeyboardInterrupt):
+            pass
+        p.initialisePhases = orig_init
+        st.pop('interrupt_at', None)
+        exp.clear(); perms.clear(); viol.clear(); sr.lines.clear(); info['events'] = 0; st['taps'] = []; st['groups'] = None; st.pop('lastid', None)
     try:
         rc = d.set(params).run(fatal=True)
         res = rc['results'] if 'results' in rc else rc[list(rc)[-1]]
